@@ -717,6 +717,9 @@ ATTACH = {
 
 # compared for the property, but not a starting point of its reach (what they call is not the property's business)
 ATTACH_ONLY = {
+    # COO / BG2 text records reach create() through this stage; its options decide whether the stored matrix is the one
+    # given (a square matrix must not be reflected into the upper triangle: C01-r4-3)
+    'C01': ['cooler.create._ingest.sanitize_pixels', 'cooler.create._ingest._sanitize_pixels'],
     # where the inferred bin size is published (bin-type / bin-size attributes) and read back (C20-r4-3)
     'C20': ['cooler.create._create.create', 'cooler.api.Cooler.binsize'],
 }
